@@ -81,11 +81,14 @@ pub fn run_one(out: &mut Out, sc: usize, s: &J) {
 fn gen(rng: &mut Rng) -> J {
     let amt = |rng: &mut Rng| -> u64 { match rng.below(5) { 0 => 0, 1 => 2_000_000, 2 => u64::MAX - rng.below(3), 3 => u64::MAX / 2 + rng.below(3), _ => rng.edge_u64() } };
     let nc = rng.below(6);
-    let certs: Vec<J> = (0..nc).map(|i| json!({"k": rng.below(19), "cred": {"t":0,"h": 1 + i}, "coin_n": jn(amt(rng)), "pool": 20 + i})).collect();
+    // pool ids repeat: several registrations / retirements of ONE pool (distinct certificates: other owner, other epoch) in a transaction
+    let certs: Vec<J> = (0..nc).map(|i| json!({"k": if rng.chance(1, 4) { 3 } else { rng.below(19) }, "cred": {"t":0,"h": 1 + i}, "coin_n": jn(amt(rng)), "pool": 20 + rng.below(2)})).collect();
     let nw = rng.below(3);
     let wds: Vec<J> = (0..nw).map(|i| json!({"cred": {"t":0,"h": 30 + i}, "net": 0, "amt_n": jn(amt(rng))})).collect();
     let np = rng.below(3);
-    let props: Vec<J> = (0..np).map(|i| json!({"dep_n": jn(amt(rng)), "cred": {"t":0,"h": 40 + i}})).collect();
+    let mut props: Vec<J> = (0..np).map(|i| json!({"dep_n": jn(amt(rng)), "cred": {"t":0,"h": 40 + i}})).collect();
+    // a proposal that is already present is added again (the set keeps it once)
+    if np > 0 && rng.chance(1, 3) { let again = props[0].clone(); props.push(again); }
     json!({"pp": {"kd_n": jn(*rng.pick(&[0u64, 2_000_000, u64::MAX])), "pd_n": jn(*rng.pick(&[0u64, 500_000_000, u64::MAX]))}, "certs": certs, "wds": wds, "props": props})
 }
 
